@@ -2,6 +2,7 @@ import Carquet.Util
 import Driver.Ops.Crc
 import Driver.Ops.Lz4
 import Driver.Ops.Schema
+import Driver.Ops.Simd
 /-
 Line-protocol driver.  One harness line in (operation, inputs, and what the real code
 returned), one verdict line out.  See Carquet/Util.lean for the syntax.
@@ -11,7 +12,8 @@ open Carquet.Util
 def handlers : List (Line → Option Verdict) :=
   [ Driver.Ops.Crc.handle,
     Driver.Ops.Lz4.handle,
-    Driver.Ops.Schema.handle ]
+    Driver.Ops.Schema.handle,
+    Driver.Ops.Simd.handle ]
 
 def stepLine (s : String) : String :=
   match parseLine s with
